@@ -34,7 +34,8 @@ def parser_soup(run, cfgs, profiles=('debug',), family='verdict', env=None):
     """token soup lexed and parsed by the recogniser MODEL (Lexer.tla + Parser.tla); the real parser must give the same verdict:
     accepted with the same tree, or rejected at the same line."""
     for c in cfgs:
-        tlc_replay(run, 'parser-' + c, 'MC_Parser.tla', 'MC_Parser_%s.cfg' % c, family, profiles=profiles, xss='256m', timeout_ms=5000, env=env)
+        tlc_replay(run, 'parser-' + c, 'MC_Parser.tla', 'MC_Parser_%s.cfg' % c, family, profiles=profiles, xss='256m', timeout_ms=5000, env=env,
+                   timeout=5400)
 
 
 def table(run, kinds_cfg):
@@ -210,10 +211,10 @@ def C01(run):
                 '(ParserTotal: a verdict for every soup text, top-level loop bounded); non-trivial = non-blank text')
     run.assumptions += ['release-mode undefined behaviour without a symptom is not observable; the model checks the slice preconditions instead']
     quick = run.tier == 'quick'
-    for c in (['core3', 'uni3', 'kw4', 'soupfull2', 'souptiny3', 'souplong4'] if quick else ['core4', 'uni4', 'kw5', 'multi5', 'soupfull3', 'soupcore4', 'souptiny5', 'souplong5']):
+    for c in (['core3', 'uni3', 'kw4', 'soupfull2', 'souptiny3', 'souplong4'] if quick else ['core4', 'uni4', 'kw5', 'multi5', 'soupfull3', 'soupcore4', 'souptiny4', 'souplong5']):
         tlc_replay(run, 'total-' + c, 'MC_Lex.tla', 'MC_Lex_%s.cfg' % c, 'total', profiles=('debug', 'release'), timeout_ms=5000)
     # totality only: what the verdict is belongs to C02 / C13
-    parser_soup(run, ['full2', 'tiny3', 'lines3'] if quick else ['full3', 'core4', 'tiny5', 'stmt6', 'lines4'], profiles=('debug', 'release'), family='total')
+    parser_soup(run, ['full2', 'tiny3', 'lines3'] if quick else ['full3', 'core4', 'tiny4', 'stmt5', 'lines4'], profiles=('debug', 'release'), family='total')
     n = 300 if quick else 5000
     tlc_replay(run, 'total-sim', 'MC_Lex.tla', 'MC_Lex_sim.cfg', 'total', profiles=('debug', 'release'),
                simulate='num=%d' % n, workers=8, timeout_ms=5000)
@@ -480,7 +481,7 @@ def C13(run):
     run.assumptions += ['the catalogue is hand-written (context-independent by construction); for soup texts "the line of the offending token" is the recogniser model\'s']
     grammar(run, 'fault', family='fault')
     # beyond the catalogue: every token-soup text; the recogniser model decides acceptance and the error line
-    parser_soup(run, ['full2', 'tiny3', 'core3', 'lines3'] if run.tier == 'quick' else ['full3', 'core4', 'tiny5', 'stmt6', 'lines4'], env={'VH_REJECT_ONLY': '1'})
+    parser_soup(run, ['full2', 'tiny3', 'core3', 'lines3'] if run.tier == 'quick' else ['full3', 'core4', 'tiny4', 'stmt5', 'lines4'], env={'VH_REJECT_ONLY': '1'})
 
 
 def C20(run):
